@@ -103,10 +103,14 @@ PROPS = {
     ),
     "C13": dict(
         level="exploration",
-        modules=[],
+        modules=["specs.jsonptr"],
         bounded=[("bounded.c13", "run")],
         assumes=["A9"],
-        trusted=["the laws are about jsonpointer / jsonpatch / fnmatch, which cannot be brought under contract: bounded only"],
+        trusted=["_resolve_json_pointers is proved: a globbed pointer resolves to exactly the paths that exist in the document and whose "
+                 "parts match the pattern parts (depth first, document order), relative to fnmatch.fnmatchcase / jsonpointer.escape / "
+                 "JsonPointer (opaque); the model has no str scalars that act as sequences (outside the property's domain)",
+                 "apply_json_fragment, apply_acl_filters, make_patch / apply_patch are compositions of jsonpointer / jsonpatch "
+                 "library calls (set, to_last, JsonPatch.apply), which cannot be brought under contract: bounded only"],
     ),
     "C19": dict(
         level="exploration",
